@@ -107,3 +107,11 @@ func VV(m MaybeFloat) Float {
 //@   props C08
 //@   pure
 //@   trusted "reads the generated table of shorthand names"
+//@ func (NamedString).IsNone
+//@   props C14
+//@   nopanic
+//@   inline
+//@ func (Rectangle).Unpack
+//@   props C14
+//@   modifies nothing
+//@   trusted "frame only: converts four numbers"
